@@ -10,17 +10,19 @@
        `\" \\ \r \n \t \0 \' \xHH \u{H…}` that denotes the string                  (`StrBody`)
     4. escapes in character literals: `'\n'`, `'\x41'`, `'\u{41}'` …               (`CharSpell`)
     5. leading zeros in repetition bounds and slice indices: `{007}`, `PEEK[-01..]`
-       (`NumSpell`, `IntSpell`; at most 4300 digits — more make CPython's `int()` raise, which
-       python-pest reports as "number too large")
+       (`NumSpell`, `IntSpell`; any number of them since the `fix:` commit 6f76b47)
     6. a doc line ended by CR LF, or by the end of the text                       (`DocEnd`)
+    7. the optional blank or tab between a doc marker and the line                (`DocSp`,
+       already in `GrammarText`; since the `fix:` commit 77be14c it belongs to the marker)
 
   (2.–6. are missing from the header of Props/C10.lean; texts using them are valid pest and are
   accepted by the implementation, so the exactness theorem of Props/C10Exact.lean needs them.)
 
-  `WF'` is `WF` (Front/Ast.lean) without two conditions that are *not* needed for a text to be
-  accepted: the bound `|i| ≤ 4294967295` on `PEEK[a..b]` indices (python-pest does not check it),
-  and "a doc line does not end with CR" (it may, at the end of the text; before a line feed the
-  relation `DocEnd` excludes it).
+  `WF'` is `WF` (Front/Ast.lean) with two conditions weakened to what a text needs to be
+  accepted: instead of the bound `|i| ≤ 4294967295` on `PEEK[a..b]` indices (python-pest does
+  not range-check them) only "at most 4300 significant digits" (`SliceIdxOK`: CPython's `int()`
+  limit, reported as "number too large"); and not "a doc line does not end with CR" (it may, at
+  the end of the text; before a line feed the relation `DocEnd` excludes it).
 
   `ActKV kv kv'`: `kv'` is what the scanner emits for the item `kv` of `g.kv` — the same kind,
   and the same value except for numbers, integers and character literals, whose tokens carry
@@ -48,10 +50,9 @@ inductive CharSpell : Nat → Text → Prop
   | raw (c : Nat) : c ≠ 92 → CharSpell c [39, c, 39]
   | esc {e : Text} {v : Nat} : Unescape.Escape e v → CharSpell v (39 :: 92 :: (e ++ [39]))
 
-/-- `NumSpell n w`: `w` is a decimal spelling of `n`: `[0-9]+`, leading zeros allowed, at most
-    4300 digits -/
+/-- `NumSpell n w`: `w` is a decimal spelling of `n`: `[0-9]+`, leading zeros allowed -/
 def NumSpell (n : Nat) (w : Text) : Prop :=
-  w ≠ [] ∧ w.all isDigit = true ∧ w.length ≤ 4300 ∧ digitsVal w = n
+  w ≠ [] ∧ w.all isDigit = true ∧ digitsVal w = n
 
 /-- `IntSpell i w`: `w` is a spelling of `i` after `integer = @{ number | "-" ~ "0"* ~ '1'..'9' ~ number? }` -/
 inductive IntSpell : Int → Text → Prop
@@ -98,12 +99,12 @@ inductive Sc' : List KV → Text → Text → Prop
 def DocEnd (l rest : Text) : Prop :=
   rest = [] ∨ (∃ r, rest = 10 :: r ∧ l.getLast? ≠ some 13) ∨ ∃ r, rest = 13 :: 10 :: r
 
-/-- doc lines with marker `m`: marker, line, then (`DocEnd`) the end of the text or trivia that
-    starts with the line break; then `tl` -/
+/-- doc lines with marker `m`: marker, optional blank (`DocSp`), line, then (`DocEnd`) the end
+    of the text or trivia that starts with the line break; then `tl` -/
 def DocsText' (m : Text) : List Text → Text → Text → Prop
   | [], t, tl => t = tl
-  | l :: ls, t, tl => ∃ ws t', IsTrivia ws ∧ t = m ++ (l ++ (ws ++ t')) ∧ DocEnd l (ws ++ t') ∧
-      DocsText' m ls t' tl
+  | l :: ls, t, tl => ∃ sp ws t', DocSp sp l ∧ IsTrivia ws ∧ t = m ++ (sp ++ (l ++ (ws ++ t'))) ∧
+      DocEnd l (ws ++ t') ∧ DocsText' m ls t' tl
 
 def RulesText' : List SRule → Text → Text → Prop
   | [], t, tl => t = tl
@@ -123,10 +124,18 @@ def GrammarText' (g : SGrammar) (t : Text) : Prop :=
 /-- a doc line contains no line feed (hence no line break) -/
 def NoLF (l : Text) : Prop := ∀ c ∈ l, c ≠ 10
 
+/-- the index of a `PEEK[a..b]` slice has at most 4300 significant digits (python-pest does not
+    range-check slice indices, but CPython's `int()` refuses longer digit strings and the front
+    end reports "number too large") -/
+def SliceIdxOK : Option Int → Prop
+  | some i => (natDigits i.natAbs).length ≤ 4300
+  | none => True
+
 mutual
 def SNode.WF' : SNode → Prop
   | .range a b => a ≤ b
   | .ident name => IsIdent name
+  | .slice a b => SliceIdxOK a ∧ SliceIdxOK b
   | .push _ e => e.WF'
   | .paren _ e => e.WF'
   | _ => True
